@@ -195,10 +195,17 @@ def mechanism(fmt, style, field, x, y, exc=None, contradiction=False, start_typ=
     if fmt == "argparse" and bare_container and field == "param.typ" and isinstance(x, list) and isinstance(y, list) and \
             x[1].startswith("Optional[") and y[1] == "Optional[str]":
         return "argparse.none-default-dict-type-second-round"
-    if gn and fmt != "docstring" and fmt != "argparse" and fmt != "json_schema" and (
-            field in ("ir.doc", "returns.presence") or field.startswith("return.") or field in ("param.doc", "param.typ")):
+    # the two Google / NumPy regeneration findings are keyed to the (field, direction) pairs they were observed with on
+    # the unchanged tree (thorough tier, 248 k histories): a drift of any other field - names, return type, presence of
+    # the return entry, ... - is a new deviation
+    how = how_of(field, x, y) if field else None
+    if gn and fmt not in ("docstring", "argparse", "json_schema") and field in ("ir.doc", "return.doc"):
         return "docstring.google-numpydoc.indented-docstring-misparsed"
-    if gn and fmt == "docstring":
+    if gn and fmt == "docstring" and (
+            field in ("ir.doc", "param.default", "return.default")
+            or (field == "param.doc" and how == "grows:text")
+            or (field == "param.typ" and how == "optional-wrapping")
+            or (field == "return.doc" and how in ("grows:text", "value"))):
         return "docstring.google-numpydoc.second-round-drift"
     return None
 
